@@ -36,6 +36,9 @@ def extra_programs():
 def _task(t):
     prog, n, p, vals = t[:4]
     modes = E.MODES + (E.NESTED_MODES if (len(t) > 4 and t[4]) else ())
+    structured = isinstance(vals, E.Structured)
+    if structured:
+        modes = ("plain", "ign")
     name = O.expr_str(prog["expr"], prog["kinds"])
     kinds = prog["kinds"]
     const_idx = [i for i, k in enumerate(kinds) if k == "K"]
@@ -43,9 +46,9 @@ def _task(t):
           "distinct_traces": 0}
     viols = {}
     groups = {}
-    growing = n > 16 and any(op in ("pow", "lshift", "rshift") for op in O.expr_ops(prog["expr"]))
+    growing = (n > 16 or structured) and any(op in ("pow", "lshift", "rshift") for op in O.expr_ops(prog["expr"]))
     for vec in E.input_vectors(prog, vals):
-        if growing and len(vec) > 1 and abs(vec[1]) > 1024:
+        if growing and len(vec) > 1 and abs(vec[1]) > (40 if structured else 1024):
             continue        # exponents / shift counts of 2^32 and more (see pv/e1.py)
         key = tuple(vec[i] for i in const_idx)
         g = groups.setdefault(key, {})
@@ -143,6 +146,9 @@ def run(ctx):
         vals = E.D(n) if n <= 3 else E.lattice(n)
         for prog in progs:
             tasks.append((prog, n, p, vals, n == 2 or ctx.thorough))       # nested guards at bitlength 2
+    # structured interior values at the default bitlength 16 (value-dependent fast paths change the trace)
+    for prog in progs:
+        tasks.append((prog, 16, REC.BN128, E.Structured(16), False))
     d2 = X.depth2_family(ctx)
     for prog in d2:
         tasks.append((prog, 2, REC.BN128, E.D(2)))
